@@ -97,10 +97,11 @@ DoDup(k, j) == /\ "dup" \in Actions /\ h[k] = 0 /\ h[j] # 0    \* a second refer
                /\ last' = <<"dup", k, j>>
 DoGC == /\ "gc" \in Actions
         /\ m' = CollectAll(m) /\ UNCHANGED h /\ last' = <<"gc">>
-DoGCRoot(k) ==      \* rooted collection below a just-released handle's node
-  /\ "gcroot" \in Actions
-  /\ \E n \in DOMAIN m.succ \ {1} : m.ref[n] = 0 /\ n = k
-  /\ m' = CollectGarbage(m, {k}) /\ UNCHANGED h /\ last' = <<"gcroot", k>>
+DoDropGC(k) ==      \* release a handle, then a rooted collection below its node
+  /\ "dropgc" \in Actions /\ h[k] # 0
+  /\ m' = CollectGarbage([m EXCEPT !.ref = Decr(@, h[k])], {h[k]})
+  /\ h' = [h EXCEPT ![k] = 0]
+  /\ last' = <<"dropgc", k>>
 DoSwap(x) == /\ "swap" \in Actions
              /\ m' = Swap(m, x) /\ UNCHANGED h /\ last' = <<"swap", m.order[x + 1], m.order[x + 2]>>
 Perms(S) == {f \in [1..Cardinality(S) -> S] : \A i, j \in 1..Cardinality(S) : f[i] = f[j] => i = j}
@@ -129,7 +130,7 @@ Next ==
   \/ \E k \in Slots : DoDrop(k)
   \/ \E k, j \in Slots : DoDup(k, j)
   \/ DoGC
-  \/ \E n \in DOMAIN m.succ : DoGCRoot(n)
+  \/ \E k \in Slots : DoDropGC(k)
   \/ \E x \in 0..(NLv - 2) : DoSwap(x)
   \/ \E p \in Perms(Declared(m)) : DoReorder(p) \/ DoSift(p)
   \/ \E nm \in Names : DoAddVar(nm)
@@ -169,7 +170,7 @@ StepOK ==
     [] a[1] = "rename2" -> RenameC(m, m', Lv(a[3]), <<a[4], a[5]>>, <<a[5], a[4]>>, NewRef)
     [] a[1] \in {"drop", "dup"} -> CountsOnlyC(m, m')
     [] a[1] = "gc" -> CollectFullC(m, m', Ledger)
-    [] a[1] = "gcroot" -> CollectRootedC(m, m', Ledger, {a[2]})
+    [] a[1] = "dropgc" -> CollectRootedC(m, m', LedgerOf(h'), {h[a[2]]})
     [] a[1] = "swap" -> SwapC(m, m', a[2], a[3])
     [] a[1] = "reorder" -> ReorderToC(m', a[2])
     [] a[1] = "sift" -> SiftC(CollectAll(m), m')
